@@ -228,6 +228,72 @@ def prefilter_generated(ctx, shim, r, nfonts, per_font):
                          "non-trivial = some glyph was substituted")
 
 
+SYLLABIC_ALPHABETS = {
+    # script: (characters incl. consonants, dependent vowels / signs that form broken clusters when alone, virama-like)
+    "khmer": [0x1780, 0x1781, 0x1798, 0x17B6, 0x17B7, 0x17C1, 0x17C6, 0x17D2, 0x17CB],
+    "myanmar": [0x1000, 0x1001, 0x102B, 0x102D, 0x1031, 0x1036, 0x1039, 0x103A, 0x103B],
+    "buginese": [0x1A00, 0x1A01, 0x1A17, 0x1A18, 0x1A19, 0x1A1B],
+    "devanagari": [0x0915, 0x0916, 0x093E, 0x093F, 0x0947, 0x094D, 0x0902, 0x093C],
+    "bengali": [0x0995, 0x0996, 0x09BE, 0x09BF, 0x09C7, 0x09CD, 0x0981],
+    "javanese": [0xA98F, 0xA990, 0xA9B4, 0xA9B6, 0xA9BA, 0xA9C0, 0xA981],
+}
+SYLLABIC_FEATURES = ["locl", "ccmp", "nukt", "akhn", "rphf", "pref", "rkrf", "blwf", "half", "abvf", "pstf", "cfar", "vatu", "cjct",
+                     "init", "pres", "abvs", "blws", "psts", "haln", "calt", "clig", "liga", "rlig"]
+
+
+def prefilter_syllabic(ctx, shim, r, nfonts, per_font):
+    """Pause functions of the syllabic shapers (reordering, dotted-circle insertion) change the glyph set in the middle of
+    the GSUB pass: lookups keyed on glyphs that only appear there (e.g. the dotted circle) must still run."""
+    groups, meta = [], []
+    for i in range(nfonts):
+        name = r.choice(sorted(SYLLABIC_ALPHABETS))
+        chars = SYLLABIC_ALPHABETS[name] + [0x25CC]
+        cmap = {cp: j + 1 for j, cp in enumerate(chars)}
+        n = len(chars) + 6                      # a few extra glyphs as substitution targets
+        dc = cmap[0x25CC]
+        lookups, feats = [], []
+        for li in range(r.range(1, 4)):
+            k = r.below(4)
+            if k == 0 or li == 0:
+                cov = [dc]                      # keyed on the dotted circle only
+            elif k == 1:
+                cov = sorted(set(r.sample(list(range(1, len(chars) + 1)), r.range(1, 3))))
+            else:
+                cov = sorted(set([dc] + r.sample(list(range(1, len(chars) + 1)), r.range(0, 2))))
+            lookups.append({"type": 1, "flag": 0, "subtables": [{"format": 2, "coverage": cov,
+                            "subst": [r.range(len(chars) + 1, n - 1) for _ in cov]}]})
+            feats.append({"tag": r.choice(SYLLABIC_FEATURES), "lookups": [li]})
+        rec = {"num_glyphs": n, "cmap": cmap, "advances": [500] * n, "gsub": {"features": feats, "lookups": lookups}}
+        try:
+            hexf = fontbuild.hexfont(rec)
+        except fontbuild.FontBuildError:
+            continue
+        reqs = []
+        for _ in range(per_font):
+            text = [r.choice(SYLLABIC_ALPHABETS[name]) for _ in range(r.range(1, 5))]
+            t = ",".join(f"{cp:x}:{j}" for j, cp in enumerate(text))
+            reqs.append(f"shape Y{i} - - - {r.choice([0, 3, 0x10])} {r.below(2)} - - - {t}")
+        groups.append([f"font Y{i} {hexf}", "prefilter on"] + reqs + ["prefilter off"] + reqs + ["prefilter on"])
+        meta.append((reqs, dc))
+    outs = vlib.run_groups(shim, groups, timeout=600)
+    total = nontriv = 0
+    for (reqs, dc), o, g in zip(meta, outs, groups):
+        n = len(reqs)
+        on = o[2:2 + n]; off = o[3 + n:3 + 2 * n]
+        for q, x, y in zip(reqs, on, off):
+            total += 1
+            if len(y.split()) - 2 > len(q.split()[-1].split(",")):
+                nontriv += 1                    # a glyph was inserted (dotted circle)
+            if x != y:
+                ctx.violation("shaping differs with the digest prefilter on vs off (syllabic shaper, glyph set changed in a pause)",
+                              {"stage": "search", "stream": "prefilter-syllabic", "font_line": g[0], "request": q,
+                               "with_prefilter": x, "without_prefilter": y})
+    ctx.note_search("prefilter-syllabic", total, nontriv,
+                    rule="generated fonts for Khmer / Myanmar / Buginese(USE) / Devanagari / Bengali / Javanese(USE) with single-"
+                         "substitution lookups keyed on the dotted-circle glyph under the syllabic feature tags x short texts with "
+                         "broken clusters; non-trivial = the shaper inserted a glyph")
+
+
 def run(ctx):
     ctx.assumptions += [
         "the theorems are about the Lean model of set_digest.rs, CoverageExt::collect and hb_buffer_t::digest; "
@@ -247,6 +313,7 @@ def run(ctx):
         exhaustive_search(ctx, shim, shifts)
     prefilter_search(ctx, shim, ctx.rng("prefilter"), ctx.budget(250, 2128), ctx.budget(2, 8))
     prefilter_generated(ctx, shim, ctx.rng("prefilter-gen"), ctx.budget(300, 5000), 6)
+    prefilter_syllabic(ctx, shim, ctx.rng("prefilter-syl"), ctx.budget(300, 5000), 8)
 
 
 def replay(ctx, rp):
